@@ -114,9 +114,9 @@ form('proto-apply-arraylit', { ops: ['concat'] }, F => `String.prototype.concat.
 form('proto-apply-empty', { ops: ['trim'] }, F => `String.prototype.trim.apply(${F.loc()}, [])`)
 form('proto-apply-variable-args', { ops: ['concat'], kf: 'D19' }, F => `String.prototype.concat.apply(${F.loc()}, w.arr${F.id()})`)
 form('proto-apply-hole', { ops: ['concat'], kf: 'D20' }, F => `String.prototype.concat.apply(${F.loc()}, [${F.f()}, , ${F.lit()}])`)
-form('proto-call-spread-this', { ops: ['concat'] }, F => `String.prototype.concat.call(...w.it${F.id()})`)
+form('proto-call-spread-this', { ops: ['concat'], nodemand: true }, F => `String.prototype.concat.call(...w.it${F.id()})`)
 form('proto-call-lit-this-litargs', { ops: ['concat'], instr: false }, F => `String.prototype.concat.call('⟦L${F.id()}⟧', 'x')`)
-form('proto-call-lit-this-args', { ops: ['concat'] }, F => `String.prototype.concat.call('⟦L${F.id()}⟧', ${F.loc()})`)
+form('proto-call-lit-this-args', { ops: ['concat'], nodemand: true }, F => `String.prototype.concat.call('⟦L${F.id()}⟧', ${F.loc()})`)
 form('proto-apply-spread-elem', { ops: ['concat'] }, F => `String.prototype.concat.apply(${F.loc()}, [${F.s()}, ...w.it${F.id()}])`)
 // optional chains
 form('opt-ident-call', { ops: ['trim'] }, F => `${F.loc()}?.trim()`)
@@ -128,12 +128,13 @@ form('opt-deep', { ops: ['concat'] }, F => `w.o${F.id()}?.o2.s${F.id()}.concat($
 form('opt-invocation', { ops: ['trim'], instr: false }, F => `${F.loc()}.trim?.()`)
 form('opt-invocation-then-method', { ops: ['trim'] }, F => `w.o${F.id()}.f1?.(${F.s()}).trim()`)
 form('opt-invocation-undefined-then-method', { ops: ['trim'] }, F => `w.o${F.id()}.u1?.(${F.s()}).trim()`)
+form('opt-prototype-recv', { ops: ['trim'], instr: false }, F => `w.X${F.id()}?.prototype.trim()`)
 form('opt-unlisted', { ops: [], instr: false }, F => `${F.loc()}?.charAt(0)`)
 form('opt-arg-opt', { ops: ['concat', 'trim'], kf: 'D17' }, F => `${F.loc()}?.concat(${F.loc()}?.trim())`)
 form('opt-nested-arg-guard', { ops: ['trim', 'concat'], kf: 'D17' }, F => { const o = `w.o${F.id()}`; return `${o}?.n1?.trim().concat(${o}?.s2.trim())` })
 form('opt-shadowed-undefined', { ops: ['trim'], kf: 'D21', sloppy: true }, F => `(function (undefined) { return w.n${F.id()}?.trim() })(5)`)
 // bare call
-form('bare-allowed', { ops: ['aloneMethod'] }, F => { F.needAlone = true; return `aloneMethod(${F.s()}, ${F.f()})` })
+form('bare-allowed', { ops: ['aloneMethod'], nodemand: true }, F => { F.needAlone = true; return `aloneMethod(${F.s()}, ${F.f()})` })
 form('bare-not-allowed', { ops: [], instr: false }, F => { F.needTrimFn = true; return `trim(${F.s()})` })
 
 // ---- placements ------------------------------------------------------------------------------------
@@ -236,7 +237,7 @@ place('top-level-stmt', { top: true, thisOk: false }, E => `w.out(${E});`)
 place('top-level-decl', { top: true }, E => `var r = ${E}; w.out(r);`)
 place('top-level-if-unbraced', { top: true }, E => `if (w.b1) w.out(${E});`)
 place('top-level-fn-body', { topFn: true }, E => `function tf() { return ${E} } w.out(tf());`)
-place('top-level-arrow-expr', { topFn: true, thisOk: false }, E => `var af = () => ${E}; w.out(af());`)
+place('top-level-arrow-expr', { topFn: true, thisOk: false, nodemand: true }, E => `var af = () => ${E}; w.out(af());`)
 place('top-level-block', { topFn: true }, E => `{ w.out(${E}) }`)
 
 // ---- program assembly ------------------------------------------------------------------------------
@@ -272,6 +273,7 @@ function build (pl, fm, opts = {}) {
       kfShape: pl.kfShape || null,
       ops: fm.ops,
       instr: fm.instr && !pl.top && !pl.excl,
+      demanded: fm.instr && !pl.top && !pl.excl && !fm.nodemand && !pl.nodemand,
       asyncMain: !!pl.asyncMain
     }
   }
